@@ -55,12 +55,23 @@ TOLERANCES = {'score, closed-form fitters (fit_regress, fit_regress_nn, fit_sele
               'unit norm / convexity': 1e-9, 'predict laws': 1e-9,
               'non-dependence on unselected conditions, order, dict round trip': 0.0}
 BOUNDS = {
-    'quick': {'n_cond': [4, 5], 'k_basis': [2, 3], 'n_data': [1, 2, 3], 'fills': 2,
-              'masks': 2, 'index_vectors_n4': 'all with >=3 distinct and <=2 deviations',
-              'optimiser_fits': '~300', 'menu': 3},
-    'thorough': {'n_cond': [4, 5], 'k_basis': [2, 3], 'n_data': [1, 2, 3], 'fills': 3,
-                 'masks': 'all <=2 entries (n_cond=4)', 'index_vectors_n4': 'all 256',
-                 'index_multisets_n5': 81, 'optimiser_fits': '~6000', 'menu': 3},
+    'quick': {'n_cond': [4, 5], 'k_basis': [2, 3], 'n_data': [1, 2, 3],
+              'fills': ['positive', 'positive mixtures of the basis'],
+              'missing-entry masks': ['none', 'one entry', 'two entries (n_cond=5)'],
+              'index vectors n_cond=4': 'all 43 with >=3 distinct values and <=2 deviations from '
+                                        'identity (13 multisets judged, other orderings bit-compared)',
+              'index multisets n_cond=5': 8,
+              'optimiser fits': '~250 (2 problems x 6 method/sigma_k x {None, one bootstrap vector} '
+                                'x 3 start-menu entries x 3 fitters) + 10 explored draw histories',
+              'start menu': 3, 'unselected-entry perturbation': 'every entry singly (closed-form), '
+              'all at once (search-based)'},
+    'thorough': {'n_cond': [4, 5], 'k_basis': [2, 3, 4], 'n_data': [1, 2, 3],
+                 'fills': ['positive', 'signed', 'positive mixtures of the basis'],
+                 'missing-entry masks': 'all 22 masks of <=2 entries (n_cond=4)',
+                 'index vectors n_cond=4': 'all 256 (35 multisets; 13 can pose a fit)',
+                 'index multisets n_cond=5': 'all 81 with >=3 distinct (closed-form), every 16th (optimisers)',
+                 'optimiser fits': '~7000 + full product of start-menu answers (2 entries x 4 draws)',
+                 'start menu': 3},
 }
 DEADLINE = {'quick': 400, 'thorough': 3000}
 
@@ -325,6 +336,13 @@ def _same_bits(a, b):
 
 
 def _cfg(case):
+    """configuration class of a signature.  Closed-form fitters fail structurally, so method,
+    sigma_k form and single RDM / stack separate their defects; the search-based fitters fail
+    data-dependently (which method / stack size shows a given defect changes with the fill), so
+    their class is only the measure family and whether a sigma_k is given."""
+    if case['fitter'] in SEARCH + ('Model.fit', 'Model.fit/interpolate'):
+        return 'measure=%s-type,sigma_k=%s' % ('corr' if 'corr' in case['method'] else 'cosine',
+                                               'none' if case['sigma'] == 'none' else 'given')
     return 'method=%s,sigma_k=%s,data=%s' % (case['method'], case['sigma'],
                                             'single' if case['n_data'] == 1 else 'stack')
 
@@ -657,10 +675,10 @@ def _explore(case, ctx):
 
         def run(env, base=base, S=S):
             return _call(base, S, seed, env=env)
-        for env, theta in choice.explore(run, bound=case['bound'], stats=stats):
-            c = dict(base, choices=env.choices)
-            ctx.case(c)
-            with ctx.guard('fit_optimize|%s' % _cfg(c), c):
+        with ctx.guard('fit_optimize|%s' % _cfg(base), base):
+            for env, theta in choice.explore(run, bound=case['bound'], stats=stats):
+                c = dict(base, choices=env.choices)
+                ctx.case(c)
                 _judge_weighted(c, ctx, S, theta, 'fit_optimize')
     ctx.count('choice executions', stats.executions)
     ctx.count('choice tree nodes', stats.states)
